@@ -69,7 +69,8 @@ CredPool  == IF RichP("data") THEN {<<"p1", 10>>, <<"pb", 511>>, <<"pc", 512>>, 
 \* "as.." = account words with a ":stamp" suffix (the driver writes name:digits:digits)
 AcctPool  == IF RichP("reply") THEN {<<"ac1", 8>>, <<"as2", 20>>, <<"acb", 64>>, <<"asb", 64>>, <<"acc", 65>>, <<"acd", 90>>}
              ELSE {<<"as1", 14>>}
-TextPool  == IF RichP("reply") THEN {<<"t1", 9>>, <<"spt", 60>>, <<"spu", 200>>} ELSE {<<"t1", 9>>}
+\* <<"", 0>> = the empty text ("NO <message>", "AGAIN <text>", "MORE <text>": the text may be empty)
+TextPool  == IF RichP("reply") THEN {<<"t1", 9>>, <<"spt", 60>>, <<"spu", 200>>, <<"", 0>>} ELSE {<<"t1", 9>>}
 TrailPool == IF RichP("reply") THEN {"", " tr ailing :words"} ELSE {""}
 
 ModeChoices == IF RichP("modes") THEN { <<"+", "x">>, <<"+", "!">>, <<"-", "!">>, <<"+", "x", "!">>, <<"-", "x", "+", "!">>, <<"+", "!", "-", "!">>, <<"+">> }
@@ -96,7 +97,8 @@ ReplyKinds == {"OK", "OKA", "OKE", "NO", "AGAIN", "MORE", "UNL", "JUNK"}
 ReplyEvs(s, tag, k, oid, st) ==
                          { [e |-> "X", svc |-> s, tag |-> tag, kind |-> k, acct |-> a, text |-> t, trail |-> tr, oid |-> oid, st |-> st]
                            : a \in (IF k = "OKA" THEN AcctPool ELSE {<<"as1", 14>>}),
-                             t \in (IF k \in {"NO", "AGAIN", "MORE"} THEN TextPool ELSE {<<"t1", 9>>}),
+                             t \in (IF k \in {"NO", "AGAIN", "MORE"} THEN TextPool \cup (IF k = "NO" THEN {<<"", 0>>} ELSE {})
+                                   ELSE {<<"t1", 9>>}),
                              tr \in (IF k = "OKA" THEN TrailPool ELSE {""}) }
 
 \* replies a service that is awaited may send (all kinds), to the current instance of i
